@@ -1,6 +1,7 @@
 import PMV.Lemmas.PolyRing
 import PMV.Lemmas.PolyRoots
 import PMV.Lemmas.PolyHigh
+import PMV.Lemmas.Bcast
 import Mathlib.Analysis.Real.Sqrt
 import Mathlib.Tactic.NormNum
 /-
@@ -188,6 +189,66 @@ theorem mul_deriv_rule (p dp q dq : List K) :
   unfold mulDerivC
   rw [toPoly_add _ _ h1 h2, toPoly_mul, toPoly_mul]
 
+/-- `+`, `-`, unary `-` and `* number` on polynomials with derivatives: the derivative of the result
+    is the sum / difference / negation / multiple of the derivatives (linearity of d/dt) -/
+theorem add_deriv_rule (a b : PCellD K) (ha : a.c ≠ []) (hb : b.c ≠ []) (hda : a.d ≠ []) (hdb : b.d ≠ []) :
+    toPoly (a.add b).c = toPoly a.c + toPoly b.c ∧ toPoly (a.add b).d = toPoly a.d + toPoly b.d :=
+  ⟨toPoly_add _ _ ha hb, toPoly_add _ _ hda hdb⟩
+
+theorem sub_deriv_rule (a b : PCellD K) (ha : a.c ≠ []) (hb : b.c ≠ []) (hda : a.d ≠ []) (hdb : b.d ≠ []) :
+    toPoly (a.sub b).c = toPoly a.c - toPoly b.c ∧ toPoly (a.sub b).d = toPoly a.d - toPoly b.d ∧
+    toPoly (a.rsub b).c = toPoly b.c - toPoly a.c ∧ toPoly (a.rsub b).d = toPoly b.d - toPoly a.d :=
+  ⟨toPoly_sub _ _ ha hb, toPoly_sub _ _ hda hdb, toPoly_sub _ _ hb ha, toPoly_sub _ _ hdb hda⟩
+
+theorem neg_deriv_rule (a : PCellD K) :
+    toPoly a.neg.c = - toPoly a.c ∧ toPoly a.neg.d = - toPoly a.d := ⟨toPoly_neg _, toPoly_neg _⟩
+
+theorem scale_deriv_rule (k : K) (a : PCellD K) :
+    toPoly (a.scale k).c = C k * toPoly a.c ∧ toPoly (a.scale k).d = C k * toPoly a.d :=
+  ⟨toPoly_scale _ _, toPoly_scale _ _⟩
+
+/-- `*` on polynomials with derivatives: product and Leibniz rule -/
+theorem mul_deriv_rule_cell (a b : PCellD K) :
+    toPoly (a.mul b).c = toPoly a.c * toPoly b.c ∧
+    toPoly (a.mul b).d = toPoly b.c * toPoly a.d + toPoly a.c * toPoly b.d :=
+  ⟨toPoly_mul _ _, mul_deriv_rule _ _ _ _⟩
+
+/-- `deriv()` on a polynomial with derivatives: d/dx and d/dt commute -/
+theorem deriv_deriv_rule (a : PCellD K) :
+    toPoly a.deriv.c = derivative (toPoly a.c) ∧ toPoly a.deriv.d = derivative (toPoly a.d) :=
+  ⟨toPoly_deriv _, toPoly_deriv _⟩
+
+theorem powLoopD_rule (p : PCellD K) (n k : Nat) (r : PCellD K) (hk : 1 ≤ k)
+    (hc : toPoly r.c = toPoly p.c ^ k) (hd : toPoly r.d = C (k : K) * toPoly p.c ^ (k - 1) * toPoly p.d) :
+    toPoly (powLoopD p n r).c = toPoly p.c ^ (k + n) ∧
+    toPoly (powLoopD p n r).d = C ((k + n : Nat) : K) * toPoly p.c ^ (k + n - 1) * toPoly p.d := by
+  induction n generalizing k r with
+  | zero => exact ⟨hc, hd⟩
+  | succ n ih =>
+    have h := mul_deriv_rule_cell r p
+    have hk' : 1 ≤ k + 1 := by omega
+    have e : toPoly p.c ^ k = toPoly p.c * toPoly p.c ^ (k - 1) := by
+      rw [← pow_succ']; congr 1; omega
+    have := ih (k + 1) (r.mul p) hk' (by rw [h.1, hc, pow_succ])
+      (by rw [h.2, hc, hd, Nat.add_sub_cancel, Nat.cast_succ, C_add, C_1, e]; ring)
+    simpa [powLoopD, Nat.add_assoc, Nat.add_comm 1 n] using this
+
+/-- `p ** n` by repeated multiplication, each step applying the product rule: the derivative of the
+    result is `n · p^(n-1) · dp/dt` (power rule), for every `n` -/
+theorem pow_deriv_rule (p : PCellD K) (n : Nat) :
+    toPoly (p.pow n).c = toPoly p.c ^ n ∧
+    toPoly (p.pow n).d = C (n : K) * toPoly p.c ^ (n - 1) * toPoly p.d := by
+  match n with
+  | 0 => simp [PCellD.pow, toPoly_singleton]
+  | 1 => simp [PCellD.pow]
+  | n + 2 =>
+    have h := mul_deriv_rule_cell p p
+    have := powLoopD_rule p n 2 (p.mul p) (by omega) (by rw [h.1]; ring)
+      (by rw [h.2, C_eq_natCast]
+          have e : (2 : Nat) - 1 = 1 := rfl
+          rw [e, pow_one]; push_cast; ring)
+    simpa [PCellD.pow, Nat.add_comm 2 n] using this
+
 end Ring
 
 /-- the derivative `roots()` attaches to a root, `dx/dt = −(dp/dt)(x) / p'(x)`, makes the total
@@ -213,6 +274,30 @@ theorem root_linear_masked (a b : F) :
   intro u hu
   simp only [rootsLinear, SCell.div, SCell.neg, List.mem_singleton] at hu
   subst hu; rfl
+
+/-- `invert_line` of `y = a x + b` (`a ≠ 0`): unmasked coefficients `(u, v)` of the inverse line,
+    `u·(a x + b) + v = x` and `a·(u y + v) + b = y` -/
+theorem invert_line_spec (a b : F) (ha : a ≠ 0) :
+    ∃ u v, @invertLine F _ _ _ _ _ (fieldOps s) ⟨[a, b], false⟩ = some (u, v) ∧ u.m = false ∧ v.m = false ∧
+      (∀ x, u.v * (a * x + b) + v.v = x) ∧ (∀ y, a * (u.v * y + v.v) + b = y) := by
+  refine ⟨_, _, rfl, ?_, ?_, ?_, ?_⟩
+  · simp [SCell.div, ops_beq, ha]
+  · simp [SCell.div, SCell.mul, SCell.neg, ops_beq, ha]
+  · intro x; simp [SCell.div, SCell.mul, SCell.neg, ops_beq, ha]; field_simp; ring
+  · intro y; simp [SCell.div, SCell.mul, SCell.neg, ops_beq, ha]; field_simp; ring
+
+/-- `invert_line`: a zero slope or a masked polynomial gives a masked result; any other order than 1
+    is rejected (ValueError) -/
+theorem invert_line_masked (a b : F) (m : Bool) (h : a = 0 ∨ m = true) :
+    ∃ u v, @invertLine F _ _ _ _ _ (fieldOps s) ⟨[a, b], m⟩ = some (u, v) ∧ u.m = true ∧ v.m = true := by
+  refine ⟨_, _, rfl, ?_, ?_⟩ <;> rcases h with h | h <;> simp [SCell.div, SCell.mul, SCell.neg, ops_beq, h]
+
+theorem invert_line_order (p : PCell F) (h : p.c.length ≠ 2) :
+    @invertLine F _ _ _ _ _ (fieldOps s) p = none := by
+  unfold invertLine
+  split
+  · rename_i a b hc; rw [hc] at h; simp at h
+  · rfl
 
 /-- order 2 (`solve_quadratic` + duplicate masking + sort): for a polynomial that is not identically
     zero the unmasked returned values are EXACTLY the real roots of `a x² + b x + c` (this covers
@@ -332,6 +417,32 @@ theorem roots_high_partial (eigvals : List F → List (F × F)) (p : PCell F) (h
   exact ⟨rootsPost_length s false _ _, rootsPost_strict s false _ _,
     fun x => (rootsPost_UVal s _ _ x).trans (contract x)⟩
 
+/-- The contract of `roots_high_partial` reduced to its narrowest form.  Write `row` for the
+    companion row the code hands to `eigvals` and `k` for the number of leading zeros.  Assume of
+    the returned list only
+    (A) *spectral*: a real `x` occurs in it as `(x, 0)` iff `xⁿ − row(x) = 0` (real eigenvalues of the
+        companion matrix = real roots of its characteristic polynomial);
+    (B) *ordering*: its first `k` entries are exactly `(0, 0)` (the zeros of the shifted-out leading
+        coefficients "show up first", polynomial.py:446), and a further exact `(0, 0)` follows iff
+        `p(0) = 0`.
+    Then `roots()` returns exactly the real roots of `p`, strictly increasing, masked entries last.
+    Both assumptions are monitored on every harness case (residual of every recorded eigenvalue in
+    the monic polynomial, exact zeros first, trace).
+    -- FULL: without (A) and (B): needs the spectral theorem for companion matrices and a model of
+    LAPACK `dgeev` (balancing/deflation order, rounding); outside the model. -/
+theorem roots_high_spectral_partial (eigvals : List F → List (F × F)) (p : PCell F) (hm : p.m = false)
+    (hnz : ∃ c ∈ p.c, c ≠ 0)
+    (A : ∀ x : F, (x, 0) ∈ eigvals (companionRow (p.c.dropWhile isZ ++ List.replicate (leadZeros p.c) 0)) ↔
+      x ^ (@companionRow F _ _ (p.c.dropWhile isZ ++ List.replicate (leadZeros p.c) 0)).length
+        - eval x (toPoly (@companionRow F _ _ (p.c.dropWhile isZ ++ List.replicate (leadZeros p.c) 0))) = 0)
+    (B1 : ∀ z ∈ (eigvals (companionRow (p.c.dropWhile isZ ++ List.replicate (leadZeros p.c) 0))).take
+        (leadZeros p.c), z = (0, 0))
+    (B2 : ((0 : F), (0 : F)) ∈ (eigvals (companionRow (p.c.dropWhile isZ ++ List.replicate (leadZeros p.c) 0))).drop
+        (leadZeros p.c) ↔ evalC p.c 0 = 0) :
+    let R := @rootsHigh F _ _ _ _ (fieldOps s) eigvals p
+    StrictAsc R ∧ ∀ x, UVal R x ↔ evalC p.c x = 0 :=
+  (roots_high_partial s eigvals p hm hnz (contract_of_spectral _ p.c hnz A B1 B2)).2
+
 /-- masked polynomial of order ≥ 3: every entry masked -/
 theorem roots_high_masked (eigvals : List F → List (F × F)) (p : PCell F) (hm : p.m = true) :
     ∀ u ∈ @rootsHigh F _ _ _ _ (fieldOps s) eigvals p, u.m = true := by
@@ -344,6 +455,117 @@ theorem roots_high_masked (eigvals : List F → List (F × F)) (p : PCell F) (hm
   exact rootsPost_masked s _ _
 
 end Roots
+
+/-! ### Leading axes: broadcasting and masks at the array level
+
+  `NpRule` (Lemmas/Bcast.lean) is NumPy's broadcasting rule; `bidx s i` projects an index of the
+  result onto an operand of shape `s`. -/
+section Arrays
+variable {K : Type} [CommRing K]
+
+/-- element-wise lifting with broadcasting: defined exactly when NumPy's rule yields a shape (else
+    the ValueError of `broadcasted_shape`), the result has that shape, every valid result index
+    projects to valid operand indices, and the element there is `f` of the projected elements -/
+theorem map2_broadcast {α β γ : Type} (f : α → β → γ) (a : Arr α) (b : Arr β) :
+    match Arr.map2 f a b with
+    | none => ∀ r, ¬ NpRule a.shape.reverse b.shape.reverse r
+    | some r => NpRule a.shape.reverse b.shape.reverse r.shape.reverse ∧
+        ∀ i, r.get i = f (a.get (bidx a.shape i)) (b.get (bidx b.shape i)) ∧
+          (Valid r.shape i → Valid a.shape (bidx a.shape i) ∧ Valid b.shape (bidx b.shape i)) := by
+  unfold Arr.map2
+  cases hb : bcast a.shape b.shape with
+  | none =>
+    simp only [Option.map_none]
+    intro r hr
+    have := (bcast_spec a.shape b.shape r.reverse).2 (by simpa using hr)
+    rw [hb] at this; cases this
+  | some out =>
+    simp only [Option.map_some]
+    refine ⟨(bcast_spec _ _ _).1 hb, fun i => ⟨?_, fun hv => ⟨bidx_valid hb hv, bidx_valid_right hb hv⟩⟩⟩
+    first | rfl | trivial
+
+/-- `eval` of an array of polynomials (leading shape `s`) at an array of points (shape `t`):
+    ValueError iff `s`, `t` do not broadcast; otherwise the result has NumPy's broadcast shape and,
+    at every index, holds `Polynomial.eval` of the projected polynomial at the projected point,
+    masked iff either is masked -/
+theorem eval_broadcast (a : Arr (PCell K)) (x : Arr (SCell K)) :
+    match evalA a x with
+    | none => ∀ r, ¬ NpRule a.shape.reverse x.shape.reverse r
+    | some r => NpRule a.shape.reverse x.shape.reverse r.shape.reverse ∧
+        ∀ i, (r.get i).v = eval (x.get (bidx x.shape i)).v (toPoly (a.get (bidx a.shape i)).c) ∧
+             (r.get i).m = ((a.get (bidx a.shape i)).m || (x.get (bidx x.shape i)).m) ∧
+             (Valid r.shape i → Valid a.shape (bidx a.shape i) ∧ Valid x.shape (bidx x.shape i)) := by
+  have h := map2_broadcast PCell.eval a x
+  unfold evalA
+  cases hr : Arr.map2 PCell.eval a x with
+  | none => rw [hr] at h; exact h
+  | some r =>
+    rw [hr] at h
+    refine ⟨h.1, fun i => ?_⟩
+    obtain ⟨e, hv⟩ := h.2 i
+    rw [e]
+    exact ⟨eval_eq_polyEval _ _, rfl, hv⟩
+
+/-- `+`, `-`, `*` on arrays of polynomials: ValueError iff the leading shapes do not broadcast; else
+    NumPy's shape, and element-wise the ring operation of `K[X]` with the union of the masks -/
+theorem ring_broadcast (a b : Arr (PCell K)) (ha : ∀ i, (a.get i).c ≠ []) (hb : ∀ i, (b.get i).c ≠ []) :
+    (match addA a b with
+     | none => ∀ r, ¬ NpRule a.shape.reverse b.shape.reverse r
+     | some r => NpRule a.shape.reverse b.shape.reverse r.shape.reverse ∧
+        ∀ i, toPoly (r.get i).c = toPoly (a.get (bidx a.shape i)).c + toPoly (b.get (bidx b.shape i)).c ∧
+             (r.get i).m = ((a.get (bidx a.shape i)).m || (b.get (bidx b.shape i)).m)) ∧
+    (match subA a b with
+     | none => ∀ r, ¬ NpRule a.shape.reverse b.shape.reverse r
+     | some r => NpRule a.shape.reverse b.shape.reverse r.shape.reverse ∧
+        ∀ i, toPoly (r.get i).c = toPoly (a.get (bidx a.shape i)).c - toPoly (b.get (bidx b.shape i)).c ∧
+             (r.get i).m = ((a.get (bidx a.shape i)).m || (b.get (bidx b.shape i)).m)) ∧
+    (match mulA a b with
+     | none => ∀ r, ¬ NpRule a.shape.reverse b.shape.reverse r
+     | some r => NpRule a.shape.reverse b.shape.reverse r.shape.reverse ∧
+        ∀ i, toPoly (r.get i).c = toPoly (a.get (bidx a.shape i)).c * toPoly (b.get (bidx b.shape i)).c ∧
+             (r.get i).m = ((a.get (bidx a.shape i)).m || (b.get (bidx b.shape i)).m)) := by
+  refine ⟨?_, ?_, ?_⟩
+  · have h := map2_broadcast PCell.add a b
+    unfold addA
+    cases hr : Arr.map2 PCell.add a b with
+    | none => rw [hr] at h; exact h
+    | some r =>
+      rw [hr] at h
+      refine ⟨h.1, fun i => ?_⟩
+      rw [(h.2 i).1]
+      exact ⟨toPoly_add _ _ (ha _) (hb _), rfl⟩
+  · have h := map2_broadcast PCell.sub a b
+    unfold subA
+    cases hr : Arr.map2 PCell.sub a b with
+    | none => rw [hr] at h; exact h
+    | some r =>
+      rw [hr] at h
+      refine ⟨h.1, fun i => ?_⟩
+      rw [(h.2 i).1]
+      exact ⟨toPoly_sub _ _ (ha _) (hb _), rfl⟩
+  · have h := map2_broadcast PCell.mul a b
+    unfold mulA
+    cases hr : Arr.map2 PCell.mul a b with
+    | none => rw [hr] at h; exact h
+    | some r =>
+      rw [hr] at h
+      refine ⟨h.1, fun i => ?_⟩
+      rw [(h.2 i).1]
+      exact ⟨toPoly_mul _ _, rfl⟩
+
+/-- unary operations keep the leading shape and act element-wise -/
+theorem unary_broadcast (a : Arr (PCell K)) :
+    (negA a).shape = a.shape ∧ (derivA a).shape = a.shape ∧
+    (∀ i, toPoly ((negA a).get i).c = - toPoly (a.get i).c ∧ ((negA a).get i).m = (a.get i).m) ∧
+    (∀ i, toPoly ((derivA a).get i).c = derivative (toPoly (a.get i).c) ∧ ((derivA a).get i).m = (a.get i).m) ∧
+    (∀ n i, toPoly ((powA a (n + 1)).get i).c = toPoly (a.get i).c ^ (n + 1) ∧ ((powA a (n + 1)).get i).m = (a.get i).m) :=
+  ⟨rfl, rfl, fun _ => ⟨toPoly_neg _, rfl⟩, fun _ => ⟨toPoly_deriv _, rfl⟩, fun _ _ => ⟨toPoly_pow _ _, rfl⟩⟩
+
+-- non-vacuity: a (2,1) array of polynomials evaluated at a (3,) array of points broadcasts to (2,3)
+example : bcast [2, 1] [3] = some [2, 3] := by decide
+example : bcast [2] [3] = none := by decide
+
+end Arrays
 
 /-! ### The real numbers are an instance -/
 
